@@ -254,6 +254,7 @@ pub fn gen_doctype(s: &mut Src) -> String {
 fn gen_select_block(s: &mut Src, out: &mut String) {
     const INNER: &[&str] = &[
         "x", "y ", "<b>", "</b>", "<i>z</i>", "<table>", "<div>", "<p>", "<span>q</span>", "<svg><circle/></svg>", "<!--c-->", "<template>t</template>",
+        "<math><annotation-xml encoding=text/html><p>z</p></annotation-xml></math>", "<math><annotation-xml encoding=x>", "<svg><foreignObject><i>",
         "<a>", " ", "<td>", "<tr>", "</div>", "<img>", "<selectedcontent>", "<option>", "<hr>", "<input>",
     ];
     out.push_str(*s.pick(&["<select>", "<select>", "<select multiple>", "<SELECT>", "<div><select>", "<b><select>", "<table><td><select>"]));
